@@ -8,5 +8,5 @@ rsync -a --exclude=.git --exclude=single_nodehost_test_dir_safe_to_delete ${REPO
 mkdir -p "$D/verif"
 ( cd "$D/repo" && GIT_DIR=/nonexistent git apply --whitespace=nowarn "$PATCH" ) || { echo "PATCH DOES NOT APPLY"; exit 3; }
 if [ -n "${BUILD:-}" ]; then ( cd "$D/repo" && GOFLAGS=-mod=mod GOPROXY=off go build ./... ) || { echo "DOES NOT BUILD"; exit 4; }; fi
-/verif/bin/dbcheck -prop "$PROP" -repo "$D/repo" -verif "$D/verif" -noselftest "$@" 2>&1 | grep -E "^ *(VIOLATION|UNDECIDED|KNOWN|property=)" | sed "s#$D/repo/##g"
+${DBCHECK:-/verif/bin/dbcheck} -prop "$PROP" -repo "$D/repo" -verif "$D/verif" -noselftest "$@" 2>&1 | grep -E "^ *(VIOLATION|UNDECIDED|KNOWN|property=)" | sed "s#$D/repo/##g"
 exit 0
